@@ -482,7 +482,7 @@ def check_unit(pre, opcode, known=(), wall_s=900, skeleton=False):
             by[o.backend] = by.get(o.backend, 0) + 1
     return dict(unit=dict(pre=pre, opcode=opcode, induction=True, **({'skeleton': True} if skeleton else {})), status=status, error=err, kinds=kinds, obligations=len(obs),
                 proved=sum(o.status == "proved" for o in obs),
-                failed=[o.as_dict() for o in obs if o.status == "failed"][:14],
+                failed=core.failed_sample(obs, 14),
                 nfailed=sum(o.status == "failed" for o in obs), unknown=sum(o.status == "unknown" for o in obs),
                 undecided_notes=run.undecided[:5], stats=run.stats.as_dict(), by_backend=by, wall_s=round(time.time() - t0, 2),
                 allow_empty=bool(kinds) and set(kinds) <= {"rejected", "outside-domain"})
